@@ -30,6 +30,9 @@ type Exec struct {
 	cost    int
 	Pruned  bool
 	visited bool
+	// Diverged: a replayed prefix did not reproduce (only with Config.TolerateDivergence; the
+	// execution then simply continued with default choices)
+	Diverged bool
 }
 
 // ChooseCost returns the alternative to take at this choice point. costs[0] must be 0.
@@ -38,11 +41,22 @@ func (x *Exec) ChooseCost(label string, costs []int) int {
 	c := 0
 	if i < len(x.prefix) {
 		c = x.prefix[i]
+		mismatch := ""
 		if c >= len(costs) {
-			panic(Divergence{fmt.Sprintf("point %d %q: replayed choice %d out of range %d", i, label, c, len(costs))})
+			mismatch = fmt.Sprintf("point %d %q: replayed choice %d out of range %d", i, label, c, len(costs))
+		} else if i < len(x.labels) && x.labels[i] != label {
+			mismatch = fmt.Sprintf("point %d: label %q, recorded %q", i, label, x.labels[i])
 		}
-		if i < len(x.labels) && x.labels[i] != label {
-			panic(Divergence{fmt.Sprintf("point %d: label %q, recorded %q", i, label, x.labels[i])})
+		if mismatch != "" {
+			if !x.r.cfg.TolerateDivergence {
+				panic(Divergence{mismatch})
+			}
+			// the code under test is not deterministic given its choices (e.g. it iterates over
+			// a map): stop replaying, go on with defaults; the exploration is no longer exhaustive
+			x.Diverged = true
+			x.r.stats.Divergences++
+			x.prefix = x.prefix[:i]
+			c = 0
 		}
 	}
 	x.points = append(x.points, point{label: label, costs: costs, chosen: c})
@@ -125,6 +139,9 @@ type Config struct {
 	// choices are 0 (fault enumeration). Executions with fewer than k deviations are shared.
 	ShardDeviations int
 	MaxExecs int           // safety cap (0 = none); hitting it sets Exhaustive=false
+	// TolerateDivergence: a prefix that does not reproduce is not a harness error; the execution
+	// continues with default choices, Stats.Divergences counts it and Exhaustive becomes false
+	TolerateDivergence bool
 }
 
 // Stats of one exploration.
@@ -138,6 +155,7 @@ type Stats struct {
 	Exhaustive     bool // all levels up to MaxCost completed
 	PerLevel       []int
 	DeadlineHit    bool
+	Divergences    int
 }
 
 type work struct {
@@ -235,8 +253,15 @@ func (r *Runner) runOne(w work, body func(x *Exec, own bool)) {
 	}
 	own := sh == r.cfg.Shard
 	body(x, own)
-	if len(x.points) < len(w.prefix) {
-		panic(Divergence{fmt.Sprintf("execution ended after %d choice points, prefix has %d", len(x.points), len(w.prefix))})
+	if len(x.points) < len(w.prefix) && !x.Diverged {
+		if !r.cfg.TolerateDivergence {
+			panic(Divergence{fmt.Sprintf("execution ended after %d choice points, prefix has %d", len(x.points), len(w.prefix))})
+		}
+		x.Diverged = true
+		r.stats.Divergences++
+	}
+	if x.Diverged {
+		r.stats.Exhaustive = false
 	}
 	if own {
 		r.stats.Executions++
@@ -252,8 +277,12 @@ func (r *Runner) runOne(w work, body func(x *Exec, own bool)) {
 	choices := x.Choices()
 	labels := x.Labels()
 	cost := 0
+	plen := len(w.prefix)
+	if x.Diverged {
+		plen = len(x.prefix)
+	}
 	for i, p := range x.points {
-		if i >= len(w.prefix) {
+		if i >= plen {
 			for alt := 1; alt < len(p.costs); alt++ {
 				c := cost + p.costs[alt]
 				if c > r.cfg.MaxCost {
